@@ -4,6 +4,7 @@
 From Coq Require Import String.
 From Aelys Require Import Base.Tactics Model.Lang Model.Eval Proofs.EvalProofs.
 From Aelys Require Import Model.RegPool Proofs.RegPoolProofs.
+From Aelys Require Import Model.CallLive Proofs.CallLiveProofs.
 
 (* integer arithmetic is Z arithmetic reduced to the 48-bit two's-complement range *)
 Theorem C02_int_ops_wrap48 : forall a b : Z,
@@ -128,3 +129,31 @@ Example C02_old_free_dead_made_a_hole :
   (free_dead_top 4 dead p = p) /\
   (alloc (free_dead_top 4 dead p) = Some (3%nat, [true; true; true; true])).
 Proof. vm_compute. repeat split; reflexivity. Qed.
+
+(* ---- liveness across calls, on the emitted bytecode (Model/CallLive.v) -----------------------
+   The analysis run on every compiled function reports a call when a register above its window
+   is live after it.  Whatever number of sweeps is used, a reported register is never an artefact
+   of the iteration: it is above the window, it is not the call's own destination, and from a
+   successor of the call there is a path in the flow graph to an instruction that reads it with
+   no write of it on the way - the value the callee's frame overwrote is the value that read sees. *)
+Theorem C02_live_register_has_a_path_to_a_read : forall k g i r,
+  N.testbit (clobbered g (solve k g (repeat 0%N (length g))) i) r = true ->
+  exists nd last dest s,
+    nth_error g i = Some nd /\ n_call nd = Some (last, dest) /\
+    (last < r)%N /\ r <> dest /\ In s (n_succ nd) /\ reach g r s.
+Proof. exact clobbered_has_witness. Qed.
+
+Theorem C02_liveness_sweeps_are_sound : forall k g l, sound g l -> sound g (solve k g l).
+Proof. exact solve_sound. Qed.
+
+Theorem C02_alarm_is_a_nonempty_clobbered_set : forall k g i m, In (i, m) (alarms k g) ->
+  m = clobbered g (solve k g (repeat 0%N (length g))) i /\ m <> 0%N.
+Proof. exact alarms_spec. Qed.
+
+(* KF-C02-11 as bytecode: LoadI r1, 10; CallGlobal r0, 0, 0 (+ 2 cache words); AddII r2, r0, r1;
+   Return r2 - register 1 is read after the call into r0 returns; and the repaired allocation *)
+Example C02_call_liveness_nonvacuous :
+  let w := fun op a b c : N => (op * 16777216 + a * 65536 + b * 256 + c)%N in
+  call_alarms 8 [w 1 1 0 10; w 77 0 0 0; 0; 0; w 49 2 0 1; w 22 2 0 0]%N = [(1, 2)]%N /\
+  call_alarms 8 [w 1 1 0 10; w 77 2 0 0; 0; 0; w 49 3 2 1; w 22 3 0 0]%N = [].
+Proof. vm_compute. split; reflexivity. Qed.
